@@ -81,7 +81,7 @@ def r1_noexcept(res, facts):
             if fr in A or swallowed(c) or isd(fr):
                 continue
             A.add(fr); why[fr] = ('call', g, c['loc']); work.append(fr)
-    dtors = [k for k, v in facts.F.items() if v.get('kind') == 'dtor' and v.get('repo')]
+    dtors = [k for k, v in facts.F.items() if v.get('kind') == 'dtor' and v.get('repo') and facts.lib_path(v['loc'])]
     if len(dtors) < 1000:
         raise AnalysisBroken('only %d destructors found (floor 1000)' % len(dtors))
     dset = set(dtors)
@@ -139,7 +139,7 @@ def r2_pairing(res, facts):
                  'constructor, an arena block (commit protocol, C03-R6), Xerces\' manager-aware operator new, or a container trait', floor=100)
     seen = set()
     for a in fn_candidates(facts, '"k":"New"'):
-        if common.is_fixture(a):
+        if common.is_fixture(a) or not facts.lib_path(a['file']):
             continue
         nm = strip_targs(short(a['name']))
         news = [x for x in walk(a['body']) if x['k'] == 'New' and x.get('place')]
@@ -291,6 +291,7 @@ DELETE_OK = {
     'XalanAutoPtr::~XalanAutoPtr': 'generic owner of objects created with plain new (ICU / Xerces objects)',
     'XalanAutoPtr::reset': 'generic owner of objects created with plain new',
     'XalanArrayAutoPtr::~XalanArrayAutoPtr': 'owner of new[] scratch buffers of the C API',
+    'XalanArrayAutoPtr::reset': 'owner of new[] buffers (instantiated by API clients)',
     'CollationCacheStruct::CollatorDeleteFunctor::operator()': 'ICU Collator created by ICU',
     'ICUBridgeCollationCompareFunctorImpl::~ICUBridgeCollationCompareFunctorImpl': 'ICU Collator created by ICU',
     'ICUXalanNumberFormatProxy::~ICUXalanNumberFormatProxy': 'ICU DecimalFormat created with ICU\'s operator new',
@@ -309,7 +310,7 @@ DELETE_OK = {
 def r4_global_heap(res, facts):
     r = res.rule('C19-R4', 'non-placement new and delete in library code are confined to objects that are not managed by the pluggable manager (ICU / Xerces / C API), each site reviewed', floor=25)
     for n in facts.D['NEW']:
-        if n['placement'] != 0 or n['from'] not in facts.F or common.FIXTURE_PREFIX in n['loc']:
+        if n['placement'] != 0 or n['from'] not in facts.F or not facts.lib_path(n['loc']):
             continue
         fn = strip_targs(short(facts.name[n['from']]))
         site = 'new %s in %s' % (short(n['type']), fn)
@@ -318,7 +319,7 @@ def r4_global_heap(res, facts):
         else:
             r.violation(site, 'object allocated with global operator new: it bypasses the pluggable memory manager', n['loc'].replace('/repo/', ''))
     for d in facts.D['DEL']:
-        if common.FIXTURE_PREFIX in d['loc']:
+        if not facts.lib_path(d['loc']):
             continue
         fn = strip_targs(short(facts.name.get(d['from'], '?')))
         site = 'delete %s in %s' % (short(d['type']).replace('const ', ''), fn)
